@@ -27,16 +27,19 @@ def crash_sets(max_unit, m):
 def run(tier, seed):
     t0 = time.time()
     alpha = ['save', 'restore', 'resume']
-    progs = ['P01', 'P02', 'P03', 'P04', 'P05', 'P06', 'P07', 'P08', 'P10', 'P12', 'P13', 'P14', 'P20', 'P21', 'P22', 'P23']
+    progs = ['P01', 'P02', 'P03', 'P04', 'P05', 'P06', 'P07', 'P08', 'P10', 'P12', 'P13', 'P14', 'P20', 'P21', 'P22', 'P23', 'P24']
     rk = lambda m: {'medium': m, 'listener': False, 'check_roundtrip': True, 'inputs': INPUTS}   # noqa
     if tier == 'quick':
         mc = [dict(name='C08_proc', progs=C.fam(progs), plans=save_plans((1, 2, 3, 4)), alphabet=alpha, k=3, invariants=PROC_INV)]
-        rp = [dict(name='C08_proc', progs=C.fam(progs), plans=save_plans((1, 2, 3, 4)), alphabet=alpha, k=2, run_kw=rk('pickle'))]
+        rp = [dict(name='C08_proc', progs=C.fam(progs), plans=save_plans((1, 2, 3, 4)), alphabet=alpha, k=2, run_kw=rk('pickle')),
+              dict(name='C08_raw_bundle', progs=C.fam(['P04', 'P20', 'P24']), plans=save_plans((1, 2, 3, 4)), alphabet=['restore'], k=1, run_kw=rk('none'))]
         outl = [('C08_outl', om.sample(om.family(4, 3), 600, seed), om.oracles(3), crash_sets(4, 1) + [(0, 1), (1, 2), (0, 2, 3)], 'pickle')]
     else:
         mc = [dict(name='C08_proc', progs=C.fam(progs), plans=save_plans((1, 2, 3, 4, 5)), alphabet=alpha, k=5, invariants=PROC_INV)]
         rp = [dict(name='C08_proc_%s' % m, progs=C.fam(progs), plans=save_plans((1, 2, 3, 4, 5)), alphabet=alpha, k=3, run_kw=rk(m))
               for m in ('pickle', 'copy', 'yaml')]
+        # a raw (unserialised) Bundle is only good for ONE restore: the loaded process shares mutable members with it
+        rp.append(dict(name='C08_raw_bundle', progs=C.fam(progs), plans=save_plans((1, 2, 3, 4, 5)), alphabet=['restore', 'resume'], k=2, run_kw=rk('none')))
         outl = [('C08_outl4', om.family(4, 3), om.oracles(4), crash_sets(5, 2), 'pickle'),
                 ('C08_outl5', om.sample(om.family(5, 2), 3000, seed), om.oracles(4), crash_sets(6, 3), 'pickle'),
                 ('C08_outl_yaml', om.sample(om.family(4, 3), 1000, seed), om.oracles(3), crash_sets(4, 1), 'yaml')]
